@@ -160,14 +160,28 @@ type recCB struct {
 }
 
 func (cb *recCB) UpdateProperties(po tabular.PropertyOwner) error {
-	kind, a, b := cb.w.identify(po)
-	cb.w.cblog = append(cb.w.cblog, []interface{}{cb.id, kind, a, b})
+	// the target is identified after the call returns (objects created by the
+	// call itself, e.g. the row of AddRowItems, are only known to the driver then)
+	cb.w.cbraw = append(cb.w.cbraw, cbEvent{cb.id, po})
 	po.SetProperty(markKey{cb.id}, true)
 	if cb.fails {
 		cb.count++
 		return cb.w.newErr(fmt.Sprintf("CB%d:%d", cb.id, cb.count))
 	}
 	return nil
+}
+
+type cbEvent struct {
+	cb int
+	po tabular.PropertyOwner
+}
+
+func (w *world) resolveCbLog() {
+	for _, e := range w.cbraw {
+		kind, a, b := w.identify(e.po)
+		w.cblog = append(w.cblog, []interface{}{e.cb, kind, a, b})
+	}
+	w.cbraw = nil
 }
 
 func (w *world) identify(po tabular.PropertyOwner) (string, int, int) {
